@@ -39,7 +39,7 @@ def _worker_init(mod_name):
 
 
 def _run_chunk(args):
-    mod_name, tier, seeds, want_digest, extra = args
+    mod_name, tier, seeds, want_digest, extra, deadline = args
     mod = _MODULE
     stats = Stats()
     violations = []
@@ -48,11 +48,14 @@ def _run_chunk(args):
     faulthandler.dump_traceback_later(600, exit=True)
     try:
         for seed in seeds:
+            if deadline is not None and time.time() > deadline:
+                stats.c['seeds_skipped_after_wall_cap'] += 1
+                continue
             res = None
             for _attempt in range(3):
                 try:
                     plan = mod.gen(seed, tier, extra)
-                    GUARD.arm()
+                    GUARD.arm(getattr(mod, 'HANG_LIMIT_S', None))
                     try:
                         if getattr(mod, 'ISOLATE', False):
                             res = run_isolated(mod, plan, stats)
@@ -100,7 +103,7 @@ def run_isolated(mod, plan, stats):
             os.close(rfd)
             GUARD.thread = None
             GUARD.lock = __import__('threading').Lock()
-            GUARD.arm()
+            GUARD.arm(getattr(mod, 'HANG_LIMIT_S', None))
             local = Stats()
             try:
                 res = mod.run(plan, local)
@@ -200,7 +203,7 @@ def minimise(mod, plan, target, max_runs=400, max_seconds=40):
 
     def still_fails(candidate):
         runs[0] += 1
-        GUARD.arm()
+        GUARD.arm(getattr(mod, 'HANG_LIMIT_S', None))
         try:
             if hasattr(mod, 'fixup'):
                 mod.fixup(candidate)
@@ -306,7 +309,7 @@ def do_replay(mod, path):
     plan = data['plan']
     if hasattr(mod, 'fixup'):
         mod.fixup(plan)
-    GUARD.arm()
+    GUARD.arm(getattr(mod, 'HANG_LIMIT_S', None))
     try:
         res = mod.run(plan, Stats())
     except SimWatchdog:
@@ -344,7 +347,7 @@ def run_batch(mod, tier, base_seed, workers=None):
     conf = mod.budget(tier)
     n_seeds = conf['seeds']
     chunk = conf.get('chunk', 50)
-    wall_cap = conf.get('wall_cap', 3600)
+    wall_cap = float(os.environ.get('VERIF_WALL_CAP', conf.get('wall_cap', 3600)))
     workers = workers or min(16, os.cpu_count() or 1)
     workers = int(os.environ.get('VERIF_WORKERS', workers))
     extra = conf.get('extra')
@@ -363,10 +366,11 @@ def run_batch(mod, tier, base_seed, workers=None):
                                                 initargs=(mod_name,)) as pool:
         futs = {}
         # determinism canary: the first seeds run twice, in different tasks (usually different processes)
-        futs[pool.submit(_run_chunk, (mod_name, tier, canary, True, extra))] = 'canary-a'
-        futs[pool.submit(_run_chunk, (mod_name, tier, list(reversed(canary)), True, extra))] = 'canary-b'
+        deadline = t0 + wall_cap
+        futs[pool.submit(_run_chunk, (mod_name, tier, canary, True, extra, None))] = 'canary-a'
+        futs[pool.submit(_run_chunk, (mod_name, tier, list(reversed(canary)), True, extra, None))] = 'canary-b'
         for ix, ch in enumerate(chunks):
-            futs[pool.submit(_run_chunk, (mod_name, tier, ch, False, extra))] = ix
+            futs[pool.submit(_run_chunk, (mod_name, tier, ch, False, extra, deadline))] = ix
         pending = set(futs)
         while pending:
             done, pending = concurrent.futures.wait(pending, timeout=5, return_when=concurrent.futures.FIRST_COMPLETED)
@@ -387,24 +391,22 @@ def run_batch(mod, tier, base_seed, workers=None):
                     continue
                 total.merge(Stats.from_wire(swire))
                 all_viol.extend(viols)
-            if time.time() - t0 > wall_cap and pending:
-                for fut in pending:
-                    fut.cancel()
-                truncated = True
-                still = [f for f in pending if not f.cancelled()]
-                pending = set(still)
-                if time.time() - t0 > wall_cap + 120:
-                    harness_errors.append('wall-clock cap exceeded with chunks still running')
-                    for proc in list(pool._processes.values()):  # pylint: disable=protected-access
-                        proc.kill()
-                    break
+            # workers stop taking new seeds at the deadline themselves (graceful truncation); only a chunk that is
+            # still running long after it is a harness problem
+            if time.time() - t0 > wall_cap + 900 and pending:
+                harness_errors.append('chunks still running 15 minutes after the wall-clock cap')
+                for proc in list(pool._processes.values()):  # pylint: disable=protected-access
+                    proc.kill()
+                break
+    truncated = total.c.get('seeds_skipped_after_wall_cap', 0) > 0
     canary_ok = bool(digests_a) and digests_a == digests_b
     if not canary_ok and not harness_errors:
         diff = [s for s in digests_a if digests_a.get(s) != digests_b.get(s)]
         harness_errors.append(f'determinism canary failed for seeds {diff[:5]}')
     return total, all_viol, harness_errors, {'canary_ok': canary_ok, 'canary_seeds': len(canary),
                                              'truncated': truncated, 'workers': workers,
-                                             'wall_s': time.time() - t0, 'seeds': n_seeds}
+                                             'wall_s': time.time() - t0,
+                                             'seeds': n_seeds - total.c.get('seeds_skipped_after_wall_cap', 0)}
 
 
 def main_check(mod, argv):
